@@ -102,6 +102,12 @@ class Run:
         if not cond:
             raise AnalysisBroken(msg)
 
+    def require_count(self, cond, msg):
+        """an instance-count threshold: judged when the run finishes, BEHIND the violations -- a change that restructures the code a rule
+        counts may be caught by another rule of the same check, and then the violation is what has to be reported (exit 1), not the count"""
+        if not cond:
+            self.shortfalls.append(msg)
+
     def min_instances(self, rule, n):
         if self.fixture_mode:
             return
